@@ -12,6 +12,7 @@ import (
 	"time"
 
 	netty "github.com/go-netty/go-netty"
+	"github.com/go-netty/go-netty/utils"
 	"pgregory.net/rapid"
 
 	"verif/harness/core"
@@ -28,6 +29,7 @@ type C08Case struct {
 	Cuts    []int      `json:"cuts"`
 	End     string     `json:"end"` // eof | err | park (channel layer only)
 	Channel bool       `json:"channel"`
+	Consume string     `json:"consume,omitempty"` // how the consumer reads a message: "" readall | copy | tobytes
 }
 
 func genC08(t *rapid.T) C08Case {
@@ -205,6 +207,7 @@ func genC08(t *rapid.T) C08Case {
 		c.Cuts = rapid.SliceOfN(rapid.IntRange(1, 40), 1, 20).Draw(t, "cuts")
 	}
 	c.Channel = rapid.IntRange(0, 19).Draw(t, "layer") == 0
+	c.Consume = rapid.SampledFrom([]string{"", "", "copy", "tobytes"}).Draw(t, "consume")
 	if c.Channel {
 		c.End = rapid.SampledFrom([]string{"eof", "err", "park"}).Draw(t, "end")
 	} else {
@@ -216,6 +219,23 @@ func genC08(t *rapid.T) C08Case {
 type c08Consumed struct {
 	data []byte
 	err  error // terminal error of reading the message (nil = clean end)
+}
+
+// consumeMessage reads a delivered message to its end the way real consumers do:
+// how = readall (Read calls), copy (io.Copy: uses WriterTo when offered), tobytes (utils.ToBytes, what codecs use).
+func consumeMessageAs(m netty.Message, how string) c08Consumed {
+	switch how {
+	case "copy":
+		if r, ok := m.(io.Reader); ok {
+			var buf bytes.Buffer
+			_, err := io.Copy(&buf, r)
+			return c08Consumed{data: buf.Bytes(), err: err}
+		}
+	case "tobytes":
+		b, err := utils.ToBytes(m)
+		return c08Consumed{data: append([]byte{}, b...), err: err}
+	}
+	return consumeMessage(m)
 }
 
 func consumeMessage(m netty.Message) c08Consumed {
@@ -285,6 +305,7 @@ func runC08(c C08Case) (out core.Outcome) {
 		}
 	}
 	cls.Add("end:%s", c.End)
+	cls.Add("consume:%s", c.Consume)
 	if c.Channel {
 		return runC08Channel(c, cd, dec, cls, out)
 	}
@@ -298,7 +319,7 @@ func runC08(c C08Case) (out core.Outcome) {
 		ref := cd.RefDecode(c.Stream[pos:], false)
 		before, pulledBefore, endBefore := fr.Pos(), fr.Pulled, fr.EndHits
 		var deliveries []c08Consumed
-		ctx := &mock.Ctx{OnRead: func(m netty.Message) { deliveries = append(deliveries, consumeMessage(m)) }}
+		ctx := &mock.Ctx{OnRead: func(m netty.Message) { deliveries = append(deliveries, consumeMessageAs(m, c.Consume)) }}
 		pv := mock.Catch(func() { dec.HandleRead(ctx, fr) })
 		if fr.EndHits-endBefore > 4 {
 			out.Violation = core.Viol("C08/reads-dead-stream:"+cd.Kind, "one HandleRead call read the ended stream %d times", fr.EndHits-endBefore)
@@ -361,7 +382,7 @@ func runC08Channel(c C08Case, cd wire.Codec, dec netty.InboundHandler, cls *core
 	var afterEnd int
 	var rig *chanRig
 	consumer := netty.InboundHandlerFunc(func(ctx netty.InboundContext, m netty.Message) {
-		d := consumeMessage(m)
+		d := consumeMessageAs(m, c.Consume)
 		if d.err != nil && !errors.Is(d.err, io.EOF) {
 			panic(d.err) // what a real consumer does: raise
 		}
